@@ -8,6 +8,7 @@ open Proto Legacy
 
 def hexStr (s : String) : String := (Bytes.ofString s).toHex
 def unhex (s : String) : Bytes := (Bytes.ofHex s).getD (str "?")
+def unhexOrEmpty (s : String) : Bytes := if s == "" then [] else unhex s
 def unhexString (s : String) : String :=
   (String.fromUTF8? (ByteArray.mk (unhex s).toArray)).getD "?"
 
@@ -50,6 +51,7 @@ structure Case where
   T : TestFn
   G : GeoFn
   nonfinite : Bool := false
+  test : String := "-"
 
 def parseCase (l : Line) : Case :=
   let nums : List (Str × Int × Option F64.Bits) := (splitD (l.getD "nums") ",").map fun e =>
@@ -78,8 +80,11 @@ def parseCase (l : Line) : Case :=
     cfgs := strList (l.getD "cfgs" "-")
     results := results
     num := num
+    test := l.getD "test" "-"
     nonfinite := nums.any (fun (_, _, p) => match p with | some b => !F64.isFinite b | none => false)
-    T := fun o n => match tests.lookup (o.map F64.canonNaN, n.map F64.canonNaN) with
+    -- NoDeltaTest is documented to return (-1, nil): modelled, not taken from the implementation
+    T := if l.getD "test" "-" == "n" then (fun _ _ => .p cNeg1) else fun o n =>
+      match tests.lookup (o.map F64.canonNaN, n.map F64.canonNaN) with
       | some r => r | none => .errOther "?no-test-data"
     G := fun ms => match geos.lookup (ms.map F64.canonNaN) with
       | some r => r | none => 0x0000DEADDEADDEAD }
@@ -107,7 +112,7 @@ def dump (c : Coll) (ts : List Table) : List String :=
   let tl := (ts.zipIdx).flatMap fun (t, i) =>
     s!"t={i} unit={t.unit.toHex} metric={t.metric.toHex} ond={if t.oldNewDelta then 1 else 0} cfgs={showStrList t.configs} grps={showStrList t.groups} nrows={t.rows.length}" ::
     (t.rows.zipIdx).map fun (r, j) =>
-      s!"t={i} r={j} b={r.bench.toHex} g={r.group.toHex} ms={";".intercalate (r.metrics.map dumpMetric)} pd={showBits r.pctDelta} d={hexStr r.delta} n={hexStr r.note} c={r.change}"
+      s!"t={i} r={j} b={r.bench.toHex} g={r.group.toHex} ms={";".intercalate (r.metrics.map dumpMetric)} pd={showBits r.pctDelta} d={hexStr r.delta} n={hexStr r.note} c={r.change} fm={";".intercalate (r.metrics.map fun m => (formatCell m r.scaler).toHex)}"
   hdr :: ms ++ tl
 
 structure State where
@@ -153,16 +158,25 @@ def judge (id : String) (cs : Case) (goObs : List String) : IO Unit := do
     let its : List Spec.Legacy.ImplTable := hdrs.map fun h =>
       let t := h.getD "t"
       let rows := ls.filter fun l => l.getD "t" == t && (l.get? "r").isSome
+      let withText (cells : List Spec.Legacy.ImplCell) (fm : String) : List Spec.Legacy.ImplCell :=
+        let texts := if fm == "" then [] else (fm.splitOn ";").map unhexOrEmpty
+        (cells.zipIdx).map fun (c, i) => { c with text := texts.getD i [] }
       { unit := unhex (h.getD "unit"), metric := unhex (h.getD "metric"), ond := h.getD "ond" == "1",
-        rows := rows.map fun r => { bench := unhex (r.getD "b"), group := unhex (r.getD "g"), cells := parseMs (r.getD "ms"),
+        rows := rows.map fun r => { bench := unhex (r.getD "b"), group := unhex (r.getD "g"), cells := withText (parseMs (r.getD "ms")) (r.getD "fm"),
                                     pd := bitsOf (r.getD "pd"), delta := unhexString (r.getD "d"), note := unhexString (r.getD "n"),
                                     change := (r.getD "c").toInt?.getD 0 } }
-    Spec.Legacy.judgeTables its (ims k) spec setting
+    let v := Spec.Legacy.judgeTables its (ims k) spec setting
+    -- the CSV (norange) of the first call must carry the means of the first call's tables
+    if v == "ok" && k == "1" then
+      match (lines.find? fun l => (l.get? "csvnr").isSome) with
+      | some l => Spec.Legacy.judgeCSV (unhexOrEmpty (l.getD "csvnr")) its cs.cfgs.length
+      | none => "csv-missing"
+    else v
   let strip (l : Line) : List String := l.words.filter fun w => !(w.startsWith "call=")
   let same := (call "1").map strip == (call "2").map strip
   -- known finding N17ovf: a metric whose value span is not representable in float64 (judged at full strength)
   let kf := if spec.overflowClass then " kf=N17ovf" else ""
-  IO.println s!"spec {id} stats1={stats "1"} stats2={stats "2"} tabs1={tabs "1"} tabs2={tabs "2"} same={if same then 1 else 0}{kf}"
+  IO.println s!"spec {id} stats1={stats "1"} stats2={stats "2"} tabs1={tabs "1"} tabs2={tabs "2"} same={if same then 1 else 0} viaconfig=1{kf}"
 
 partial def loop (h : IO.FS.Stream) (st : State) : IO Unit := do
   let line ← h.getLine
